@@ -678,7 +678,11 @@ def main():
         prog = programs[beh["pid"] - 1]
         if mode == "running" and beh["mse"]:
             continue
-        for carrier in carriers_for(prog, mode):
+        carriers = carriers_for(prog, mode)
+        if "ageny" in carriers:
+            # the two async-generator carriers (suspended in an await / at its own yield) alternate between behaviours
+            carriers.remove("agen" if ((bi // shard[1]) + beh["pid"]) % 2 else "ageny")
+        for carrier in carriers:
             key = (beh["pid"], carrier, mode == "running")
             if key not in cache:
                 cache[key] = compile_prog(prog, carrier, mode == "running")
